@@ -638,6 +638,52 @@ theorem nearLine_iff (ql : QLine) (qp : QPoint) (hl : ql.WF) (hp : qp.WF) (hn : 
   rw [Q.le_iff (Q.wf_sq wfE) (Q.wf_mul (Q.wf_sq htw) wfN), Q.val_sq wfE, Q.val_mul (Q.wf_sq htw) wfN, Q.val_sq htw, vE, vN, htv]
   exact (abs_div_sqrt_le hn (by norm_num)).symm
 
+/-! ### the point algebra (`pt` cases of the driver) -/
+
+/-- `Point`'s operators and `slen len dp cp` over the reals are the textbook ones; dividing and multiplying back by a
+    non-zero `k` is the identity; `len` is the non-negative root of `slen`. -/
+theorem point_ops_spec (eps : ℝ) (p q : Point ℝ) (k : ℝ) :
+    padd (realGeo eps) p q = ⟨p.x + q.x, p.y + q.y⟩ ∧ psub (realGeo eps) p q = ⟨p.x - q.x, p.y - q.y⟩ ∧
+    pmul (realGeo eps) p k = ⟨p.x * k, p.y * k⟩ ∧ pdiv (realGeo eps) p k = ⟨p.x / k, p.y / k⟩ ∧
+    slen (realGeo eps) p = p.x ^ 2 + p.y ^ 2 ∧ len (realGeo eps) p = Real.sqrt (p.x ^ 2 + p.y ^ 2) ∧
+    dp (realGeo eps) p q = p.x * q.x + p.y * q.y ∧ cp (realGeo eps) p q = p.x * q.y - p.y * q.x ∧
+    (k ≠ 0 → (pdiv (realGeo eps) p k).x * k = p.x ∧ (pdiv (realGeo eps) p k).y * k = p.y) ∧
+    0 ≤ len (realGeo eps) p ∧ len (realGeo eps) p ^ 2 = slen (realGeo eps) p := by
+  have hs : slen (realGeo eps) p = p.x ^ 2 + p.y ^ 2 := by simp only [slen, realGeo]; ring
+  have h0 : 0 ≤ p.x ^ 2 + p.y ^ 2 := by positivity
+  refine ⟨rfl, rfl, rfl, rfl, hs, ?_, rfl, rfl, ?_, ?_, ?_⟩
+  · simp only [len, hs]; rfl
+  · intro hk
+    exact ⟨div_mul_cancel₀ _ hk, div_mul_cancel₀ _ hk⟩
+  · exact Real.sqrt_nonneg _
+  · show Real.sqrt (slen (realGeo eps) p) ^ 2 = _
+    rw [hs, Real.sq_sqrt h0]
+
+/-- the executable `pt` predicate of the driver (`S = ok`) says exactly: every observed value is within `4e-15` (relative to
+    the magnitudes of the terms) of what the real-arithmetic model returns — the quotient after multiplying back by `k`,
+    the length as a non-negative number whose square is `slen`. -/
+theorem ptOk_iff (eps : ℝ) (a b : QPoint) (k : Q) (o : PtObs) (ha : a.WF) (hb : b.WF) (hk : k.WF) (ho : o.WF) :
+    ptOk a b k o = true ↔
+      (Within o.add.x.val (padd (realGeo eps) a.val b.val).x (|a.val.x| + |b.val.x|) ∧
+       Within o.add.y.val (padd (realGeo eps) a.val b.val).y (|a.val.y| + |b.val.y|) ∧
+       Within o.sub.x.val (psub (realGeo eps) a.val b.val).x (|a.val.x| + |b.val.x|) ∧
+       Within o.sub.y.val (psub (realGeo eps) a.val b.val).y (|a.val.y| + |b.val.y|) ∧
+       Within o.mul.x.val (pmul (realGeo eps) a.val k.val).x |(pmul (realGeo eps) a.val k.val).x| ∧
+       Within o.mul.y.val (pmul (realGeo eps) a.val k.val).y |(pmul (realGeo eps) a.val k.val).y| ∧
+       Within (o.div.x.val * k.val) a.val.x |a.val.x| ∧
+       Within (o.div.y.val * k.val) a.val.y |a.val.y| ∧
+       Within o.slen.val (slen (realGeo eps) a.val) (slen (realGeo eps) a.val) ∧
+       0 ≤ o.len.val ∧
+       Within (o.len.val ^ 2) (slen (realGeo eps) a.val) (slen (realGeo eps) a.val) ∧
+       Within o.dp.val (dp (realGeo eps) a.val b.val) (|a.val.x * b.val.x| + |a.val.y * b.val.y|) ∧
+       Within o.cp.val (cp (realGeo eps) a.val b.val) (|a.val.x * b.val.y| + |a.val.y * b.val.x|)) := by
+  obtain ⟨hax, hay⟩ := ha
+  obtain ⟨hbx, hby⟩ := hb
+  obtain ⟨⟨h1x, h1y⟩, ⟨h2x, h2y⟩, ⟨h3x, h3y⟩, ⟨h4x, h4y⟩, h5, h6, h7, h8⟩ := ho
+  simp (disch := qwf) only [ptOk, Bool.and_eq_true, within_iff, Q.le_iff, Q.val_add, Q.val_sub, Q.val_mul, Q.val_sq,
+    Q.val_abs, Q.val_ofInt]
+  simp only [Within, padd, psub, pmul, slen, dp, cp, realGeo, QPoint.val, Int.cast_zero, and_assoc, sq]
+
 /-! ### non-vacuity: every theorem applies to a concrete, non-trivial configuration -/
 
 example : UnitLine (lineNew (realGeo 1e-9) 3 4 5) := (line_new_unit _ 3 4 5 (Or.inl (by norm_num))).1
@@ -738,5 +784,20 @@ example := (nearCircle_iff ⟨⟨⟨0, 1⟩, ⟨0, 1⟩⟩, ⟨5, 1⟩⟩ ⟨⟨
   ⟨Nat.one_pos, Nat.one_pos⟩).mp (by decide)
 example := (nearLine_iff ⟨⟨3, 1⟩, ⟨4, 1⟩, ⟨-25, 1⟩⟩ ⟨⟨3, 1⟩, ⟨4, 1⟩⟩ ⟨Nat.one_pos, Nat.one_pos, Nat.one_pos⟩
   ⟨Nat.one_pos, Nat.one_pos⟩ (by norm_num [Q.val])).mp (by decide)
+
+-- the point algebra on (3,4), (1,2), k = 2: exact observations pass the `pt` predicate, an observation off by 1e-9 does not
+example := point_ops_spec 1e-9 ⟨3, 4⟩ ⟨1, 2⟩ 2
+example : len (realGeo 1e-9) ⟨3, 4⟩ ^ 2 = 25 := by
+  rw [(point_ops_spec 1e-9 ⟨3, 4⟩ ⟨1, 2⟩ 2).2.2.2.2.2.2.2.2.2.2, (point_ops_spec 1e-9 ⟨3, 4⟩ ⟨1, 2⟩ 2).2.2.2.2.1]; norm_num
+example : ptOk ⟨⟨3, 1⟩, ⟨4, 1⟩⟩ ⟨⟨1, 1⟩, ⟨2, 1⟩⟩ ⟨2, 1⟩
+    ⟨⟨⟨4, 1⟩, ⟨6, 1⟩⟩, ⟨⟨2, 1⟩, ⟨2, 1⟩⟩, ⟨⟨6, 1⟩, ⟨8, 1⟩⟩, ⟨⟨3, 2⟩, ⟨2, 1⟩⟩, ⟨25, 1⟩, ⟨5, 1⟩, ⟨11, 1⟩, ⟨2, 1⟩⟩ = true := by decide
+example : ptOk ⟨⟨3, 1⟩, ⟨4, 1⟩⟩ ⟨⟨1, 1⟩, ⟨2, 1⟩⟩ ⟨2, 1⟩
+    ⟨⟨⟨4, 1⟩, ⟨6, 1⟩⟩, ⟨⟨2, 1⟩, ⟨2, 1⟩⟩, ⟨⟨6, 1⟩, ⟨8, 1⟩⟩, ⟨⟨3, 2⟩, ⟨2, 1⟩⟩, ⟨25, 1⟩, ⟨5, 1⟩, ⟨11000000001, 1000000000⟩, ⟨2, 1⟩⟩ = false := by
+  decide
+example := (ptOk_iff 1e-9 ⟨⟨3, 1⟩, ⟨4, 1⟩⟩ ⟨⟨1, 1⟩, ⟨2, 1⟩⟩ ⟨2, 1⟩
+    ⟨⟨⟨4, 1⟩, ⟨6, 1⟩⟩, ⟨⟨2, 1⟩, ⟨2, 1⟩⟩, ⟨⟨6, 1⟩, ⟨8, 1⟩⟩, ⟨⟨3, 2⟩, ⟨2, 1⟩⟩, ⟨25, 1⟩, ⟨5, 1⟩, ⟨11, 1⟩, ⟨2, 1⟩⟩
+    ⟨Nat.one_pos, Nat.one_pos⟩ ⟨Nat.one_pos, Nat.one_pos⟩ Nat.one_pos
+    ⟨⟨Nat.one_pos, Nat.one_pos⟩, ⟨Nat.one_pos, Nat.one_pos⟩, ⟨Nat.one_pos, Nat.one_pos⟩, ⟨Nat.two_pos, Nat.one_pos⟩,
+      Nat.one_pos, Nat.one_pos, Nat.one_pos, Nat.one_pos⟩).mp (by decide)
 
 end Rlib.C10
